@@ -101,6 +101,12 @@ def run(ctx, replay):
     known = open_findings()
     open_devs = sorted({f["match"]["deviation"] for f in known if f.get("match", {}).get("deviation")})
 
+    if os.environ.get("VERIF_ONLY_REPOTESTS"):             # development aid: only the hook traces of the repo's tests
+        import checks.remote_hooks as rh
+        ctx.cov["traces_validated_against_impl"] = rh.remote_policy_traces(
+            ctx, "C05", cfg(spec="TSpec", nmx=(1, 2), kinds="Kinds5", slow=("TRUE", "FALSE"), cn=ALL_CN,
+                            maxmsgs=6, devs=(), tail=TRACE_TAIL))
+        return
     # ---- (T) exhaustive model checking of the design ------------------------------
     skip_mc = bool(os.environ.get("VERIF_DEV_SKIP_MC"))   # development aid only (mutation drills)
     if skip_mc:
@@ -151,6 +157,14 @@ def run(ctx, replay):
             raise vlib.Infra("as-is model (TlsaFutureShared) no longer violates NoViolation: the invariant is vacuous "
                              "(%s %s)" % (rb["invariant"], rb["error"]))
         ctx.cov["asis_counterexample_found"] = True
+
+    # ---- the other direction: the repository's own tests of the package, hooks on -------------------
+    hook_ok = 0
+    if not replay:
+        import checks.remote_hooks as rh
+        hook_ok = rh.remote_policy_traces(
+            ctx, "C05", cfg(spec="TSpec", nmx=(1, 2), kinds="Kinds5", slow=("TRUE", "FALSE"), cn=ALL_CN,
+                            maxmsgs=6, devs=(), tail=TRACE_TAIL))
 
     # ---- (B) behaviours out of TLC ---------------------------------------------------
     if replay:
@@ -291,6 +305,7 @@ def run(ctx, replay):
     ctx.cov["evaluations"] = len(behs)
     ctx.cov["distinct_nontrivial"] = sum(1 for b in behs if nontrivial(b))
     ctx.cov["data_events_checked"] = sum(1 for e in events if e["e"] == "SrvData" and e["t"] < 900000)
+    ctx.cov["traces_validated_against_impl"] += hook_ok
     ctx.cov["rule"] = ("behaviours = (configuration, per-MX facts, message history) of Remote.tla printed by TLC: "
                        "exhaustive over the local_policy/override/cache sub-space, -simulate over the full space "
                        "(1 MX) and the reduced 2-MX space, de-duplicated; non-trivial = at least one policy enabled "
